@@ -23,7 +23,7 @@ RULE = ("per class a bounded grammar enumerated completely; non-trivial = distin
 ASSUMPTIONS = ["native/foreign classification comes from the generator, never from the outcome",
                "data() is compared without identifiers (uuid=False)"]
 REQUIRED = ["native_fixpoint", "foreign_converged", "normalised_input", "acl_level", "config_level",
-            "remark_tricky"]
+            "remark_tricky", "setter_fixpoint"]
 
 
 def describe(tier, seed):
@@ -494,6 +494,44 @@ def _acl_fix(cls, text, kwargs, ctx, members=None):
         _config_level("aces", o.line, kw2, ctx)
 
 
+def _acl_after_setters(text, kwargs, ctx):
+    """The switches set through the SETTERS of an existing (grouped) ACL are settings like the ones
+    given to the constructor: the text rendered afterwards re-parses, with the settings the object
+    reports, into the same text and data."""
+    from cisco_acl import Acl
+
+    for op in ("port_nr=True", "protocol_nr=True", "port_nr=True,False", "protocol_nr=True,port_nr=True",
+               "platform=same"):
+        ctx.ev()
+        case = dict(kind="generic", cls="Acl", input=text, kwargs=kwargs, native=True, setters=op)
+        try:
+            acl = Acl(text, **kwargs)
+            if op == "platform=same":
+                acl.platform = kwargs["platform"]
+            else:
+                for part in op.split(","):
+                    if "=" in part:
+                        name, val = part.split("=")
+                        setattr(acl, name, val == "True")
+                    else:
+                        setattr(acl, name, part == "True")
+            l1 = acl.line
+            kw2 = dict(kwargs, port_nr=acl.port_nr, protocol_nr=acl.protocol_nr)
+            again = Acl(l1, **kw2)
+        except (ValueError, TypeError) as ex:
+            ctx.viol("Acl:own_rendering_rejected_after_setter", case, repr(ex), "accepted")
+            continue
+        if again.line != l1:
+            ctx.viol("Acl:not_a_fixed_point_after_setter", dict(case, l1=l1), again.line, l1)
+        elif again.data() != acl.data():
+            d0, d1 = acl.data(), again.data()
+            ctx.viol("Acl:data_differs_after_setter", dict(case, l1=l1),
+                     {k: repr(d1.get(k))[:200] for k in d0 if d0.get(k) != d1.get(k)},
+                     {k: repr(d0.get(k))[:200] for k in d0 if d0.get(k) != d1.get(k)})
+        else:
+            ctx.out("setter_fixpoint")
+
+
 def _acl(unit, ctx):
     plat, cls = unit["platform"], unit["cls"]
     its = acl_items(ctx.seed)
@@ -513,6 +551,8 @@ def _acl(unit, ctx):
                         kw["group_by"] = group_by
                         kw["version"] = "15.2(4)M"  # blocks must keep the ACL's name table
                     _acl_fix("Acl", text, kw, ctx)
+                    if group_by:
+                        _acl_after_setters(text, kw, ctx)
                 else:
                     if indent != "  ":
                         continue
